@@ -78,7 +78,7 @@ pub fn cases(ctx: &Ctx) -> Vec<WCase> {
         s.frames = 400;
         s.notify_ms = 20_000;
         s.timeout_ms = 30_000;
-        s.link = Link { drop: rr.pick(&[0.0, 0.0, 0.05, 0.2]), dup: rr.pick(&[0.0, 0.1]), base_ms: rr.pick(&[0u64, 10, 40]), jitter_ms: rr.pick(&[0u64, 5, 30]), outages: vec![], faults: vec![] };
+        s.link = Link { drop: rr.pick(&[0.0, 0.0, 0.05, 0.2]), dup: rr.pick(&[0.0, 0.1]), base_ms: rr.pick(&[0u64, 10, 40]), jitter_ms: rr.pick(&[0u64, 5, 30]), outages: vec![], faults: vec![], stragglers: vec![] };
         if rr.chance(0.4) {
             s.specs.push(SpecCfg::new(rr.below(s.peers.len() as u64) as usize));
         }
